@@ -116,6 +116,14 @@ def run(ctx):
         c["loose"] = True
         c.pop("zslice", None); c.pop("aslice", None)
         cases.append(c)
+    # every default-tolerance history also solved to a tight tolerance: an independent reference for its force and stiffness
+    for c in [x for x in cases if x.get("loose")]:
+        tw = copy.deepcopy(c)
+        tw["params"] = {"rtol": 1.0e-10, "atol": 1.0e-10, "miter": 60}
+        tw.pop("loose")
+        tw["reference_of"] = id(c)
+        c["twin_key"] = id(c)
+        cases.append(tw)
     for c in cases:
         eps = 1.0e-5 * c["h"]
         c["eps"] = eps
@@ -170,6 +178,25 @@ def run(ctx):
                         known.append((c, msg + (" (the step was cut back after a failed Newton solve)" if cut and not c.get("substep") else "")))
                     else:
                         findings.append((c, msg))
+    # default tolerances against the tight reference of the same history
+    byid = {c.get("twin_key"): (c, r) for c, r in zip(cases, results) if c.get("twin_key")}
+    for c, r in zip(cases, results):
+        if "reference_of" not in c or c["reference_of"] not in byid:
+            continue
+        lc, lr = byid[c["reference_of"]]
+        ctx.count("default-vs-tight pairs")
+        if r.get("outcome") != "ok" or lr.get("outcome") != "ok":
+            continue
+        m = lc["material"]
+        label = "%s/%s %dD" % (m.get("name", m["kind"]), m.get("variant", ""), lc["dim"])
+        same_path = lr.get("step_attempts") == r.get("step_attempts")      # else one was cut back: stiffnesses not comparable (open finding)
+        fscale = max(abs(uv(x)) for x in r["force"]) + 1e-9
+        for sidx in range(1, len(lc["times"])):
+            Fl, Ft, Kl, Kt = uv(lr["force"][sidx]), uv(r["force"][sidx]), uv(lr["stiffness"][sidx]), uv(r["stiffness"][sidx])
+            if abs(Fl - Ft) > 1e-2 * fscale or (same_path and abs(Kl - Kt) > 1e-2 * abs(Kt)):
+                findings.append((lc, "%s: step %d solved with the solver's default tolerances returns force/stiffness %.8g/%.8g, "
+                                     "the same history solved to 1e-10 gives %.8g/%.8g" % (label, sidx, Fl, Kl, Ft, Kt)))
+                break
     # corpus: minimised inputs of earlier findings run on every pass (a returned state must carry a finite force and a
     # positive finite stiffness, whatever the material update did)
     import glob, json as _json, math as _math, os as _os
